@@ -21,7 +21,7 @@ for a in sys.argv:
 src = {1: "/tmp/mut_%s/_mut"}.get(rnd, "/tmp/mut" + str(rnd) + "_%s/_mut") % pid
 # labels: the first pair of letters that is free or already holds this round's import of this property
 label = None
-for pair in ("AB", "CD", "EF", "GH", "IJ", "KL", "MN"):
+for pair in ("AB", "CD", "EF", "GH", "IJ", "KL", "MN", "OP"):
     cand = pair["AB".index(which)]
     d0 = "/verif/seeded/%s-%s" % (pid, cand)
     other = "/verif/seeded/%s-%s" % (pid, pair["BA".index(which)])
